@@ -67,6 +67,13 @@ func (r *Registry) Marshal(pubKey PubKey) []byte {
 // therefore the slice must not be modified after calling Unmarshal.
 func (r *Registry) Unmarshal(b []byte) (PubKey, error) {
 	// TODO: more validation against b
+	if len(b) < prefixSize {
+		return nil, fmt.Errorf(
+			"encoded public key too short: got %d bytes, need at least %d for the type prefix",
+			len(b), prefixSize,
+		)
+	}
+
 	prefix := bytes.TrimRight(b[:prefixSize], "\x00")
 
 	fn := r.byPrefix[string(prefix)]
